@@ -36,7 +36,8 @@ void am_add_decoy(void *p);
 int am_in_arena(const void *p, int *block, long *off);
 const am_block *am_blocks(int *n);
 int am_live_blocks(void);
-long am_nonzero_live(int obj);  /* counts non-zero bytes in live blocks of obj (-1 all) and remembers it per block */
+long am_nonzero_live(int obj);
+void am_protect_obj(int obj, int readonly);   /* PROT_READ / PROT_READ|WRITE on the live blocks of obj */  /* counts non-zero bytes in live blocks of obj (-1 all) and remembers it per block */
 
 #define AM_WRAP_LDFLAGS "-Wl,--wrap=malloc,--wrap=calloc,--wrap=realloc,--wrap=free,--wrap=posix_memalign,--wrap=aligned_alloc,--wrap=memalign"
 #endif
